@@ -87,7 +87,6 @@ func VerifC18Signals() {
 		verifrt.Assume(c18IsShutdown(sig))
 		nt.ch <- sig
 	}()
-	verifrt.Known("C18-shutdown-panic-exit-code", anyPanic)
 	status := h.Handle(context.Background())
 	verifrt.Assert(atomic.LoadInt32(&beforeShutdown) == 0, "Shutdown was called before a shutdown signal arrived")
 	// expected calls: reverse registration order, once each, stopping only
